@@ -328,3 +328,55 @@ Theorem C03_lookup_winner_media : forall ao regs cls rq,
   end.
 Proof. exact lookup_winner_media. Qed.
 Print Assumptions C03_lookup_winner_media.
+
+(* ==== the program regenerated from the source on this run (Gen/Facts_C03_gen.v, by harness/c03/translate.py)
+   equals the reference model, and the property theorems hold of the REGENERATED lookup *)
+Require Import Verif.Gen.Facts_C03_gen Verif.Proofs.C03_gen.
+
+Theorem C03_generated_call_view_is_model : forall R cls rq, gen_call_view R cls rq = call_view R cls rq.
+Proof. exact gen_call_view_is_model. Qed.
+Print Assumptions C03_generated_call_view_is_model.
+
+Theorem C03_generated_find_views_is_model : forall R cls rsro csro name,
+  gen_find_views R cls rsro csro name = find_views R cls rsro csro name.
+Proof. exact gen_find_views_is_model. Qed.
+Print Assumptions C03_generated_find_views_is_model.
+
+Theorem C03_generated_multiview_is_model : forall m rq,
+  gen_get_views m rq = get_views m rq /\ gen_mv_call m rq = mv_call rq (get_views m rq)
+  /\ gen_mv_match m rq = mv_match rq m.
+Proof. intros m rq. exact (conj (gen_get_views_is_model m rq) (conj (gen_mv_call_is_model m rq) (gen_mv_match_is_model m rq))). Qed.
+Print Assumptions C03_generated_multiview_is_model.
+
+Theorem C03_generated_predicated_view_is_model : forall v rq,
+  gen_predicated_view v rq = call_reg rq v /\ gen_predicate_wrapper rq v = call_reg rq v
+  /\ gen_checker rq v = qualifies rq v.
+Proof. intros v rq. exact (conj (gen_predicated_view_is_model v rq) (conj (gen_predicate_wrapper_is_model rq v) (gen_checker_is_model rq v))). Qed.
+Print Assumptions C03_generated_predicated_view_is_model.
+
+Theorem C03_generated_make_is_model : forall names kw,
+  NoDup names -> gen_make names kw = option_map made_triple (make names kw).
+Proof. exact gen_make_is_model. Qed.
+Print Assumptions C03_generated_make_is_model.
+
+Theorem C03_generated_predicates_are_model : forall rq p, gen_eval_pred rq p = eval_pred rq p.
+Proof. exact gen_eval_pred_is_model. Qed.
+Print Assumptions C03_generated_predicates_are_model.
+
+Theorem C03_gen_lookup_winner_partial : forall ao regs cls rq,
+  Forall reg_wf regs -> NoDup (map key regs) -> no_accept regs ->
+  NoDup (q_req_sro rq) -> NoDup (q_ctx_sro rq) -> order_respects regs ->
+  spec_ok cls regs rq (gen_call_view (register_all ao regs) cls rq) = true.
+Proof. exact gen_lookup_winner. Qed.
+Print Assumptions C03_gen_lookup_winner_partial.
+
+Theorem C03_gen_failing_pred_never_runs : forall R cls rq t,
+  gen_call_view R cls rq = Ran t ->
+  exists x, In x (tried R cls rq) /\ qualifies rq x = true /\ r_tag x = t.
+Proof. exact gen_failing_pred_never_runs. Qed.
+Print Assumptions C03_gen_failing_pred_never_runs.
+
+Theorem C03_gen_not_found_only_if_none : forall R cls rq,
+  not_found (gen_call_view R cls rq) -> forall x, In x (tried R cls rq) -> qualifies rq x = false.
+Proof. exact gen_not_found_only_if_none. Qed.
+Print Assumptions C03_gen_not_found_only_if_none.
